@@ -43,7 +43,9 @@ def build_route(d, route, res, k):
     xml = docs.to_xml(res).encode('utf-8')
     base = d / f'r{k}'
     base.mkdir()
-    plain = base / 'wordnet.xml'
+    # resources are recognised by content, not by name
+    fname = ['wordnet.xml', 'WORDNET.XML', 'resource.lmf', 'wn-data'][(k + len(xml)) % 4]
+    plain = base / fname
     if route == 'mem':
         plain.write_bytes(xml)
         return None, plain
@@ -51,12 +53,12 @@ def build_route(d, route, res, k):
         plain.write_bytes(xml)
         return plain, None
     if route == 'gz':
-        p = base / 'wordnet.xml.gz'
+        p = base / (fname + '.gz')
         with gzip.open(p, 'wb') as f:
             f.write(xml)
         return p, None
     if route == 'xz':
-        p = base / 'wordnet.xml.xz'
+        p = base / (fname + '.xz')
         with lzma.open(p, 'wb') as f:
             f.write(xml)
         return p, None
@@ -64,7 +66,7 @@ def build_route(d, route, res, k):
     def mkpkg(where, name='pkg'):
         pk = where / name
         pk.mkdir(parents=True)
-        (pk / 'wordnet.xml').write_bytes(xml)
+        (pk / fname).write_bytes(xml)
         (pk / 'README.md').write_text('read me')
         (pk / 'LICENSE').write_text('licence text')
         (pk / 'citation.bib').write_text('@misc{x}')
@@ -87,8 +89,8 @@ def build_route(d, route, res, k):
     stage = base / 'stage'
     stage.mkdir()
     if what == 'file':
-        (stage / 'wordnet.xml').write_bytes(xml)
-        member = stage / 'wordnet.xml'
+        (stage / fname).write_bytes(xml)
+        member = stage / fname
     elif what == 'pkg':
         member = mkpkg(stage)
     else:
@@ -248,13 +250,20 @@ def gen_tree(rng, depth=0):
 def gen(rng):
     g = docs.Gen(rng, hostile=0.1, rich=0.5)
     v = rng.choice(['1.0', '1.1', '1.3'])
-    kind = rng.choice(['plain', 'plain', 'two', 'ext-no-base', 'mixed-installed', 'frames'])
+    kind = rng.choice(['plain', 'plain', 'two', 'ext-no-base', 'mixed-installed', 'frames', 'ext-with-base'])
     pre = None
     a = g.lexicon('a', '1', v)
     if kind == 'plain':
         res = docs.resource([a], v)
     elif kind == 'two':
-        res = docs.resource([a, g.lexicon('b', '1', v)], v)
+        # dependencies declared without the optional url (WN-LMF >= 1.1)
+        reqs = [{'id': 'a', 'version': '1'}, {'id': 'nowhere', 'version': '0', 'url': 'http://x'}] if v != '1.0' and rng.random() < 0.7 else None
+        res = docs.resource([a, g.lexicon('b', '1', v, requires=reqs)], v)
+    elif kind == 'ext-with-base':
+        v = rng.choice(['1.1', '1.3'])
+        a = g.lexicon('a', '1', v)
+        pre = docs.resource([a], v)
+        res = docs.resource([g.extension('ax', a, '1', v)], v)     # the base is installed: the extension is added
     elif kind == 'ext-no-base':
         ve = '1.1'
         zz = g.lexicon('zz', '9', ve)
